@@ -21,6 +21,8 @@ Conventions
   of the received header; all version dependent layouts use `proto`, as the code does.
 * not modelled: Go's stack limit for deeply nested type descriptors (fuel = buffer length is never
   exhausted, see `readTypeInfo`), memory exhaustion of `make([]int, pkeyCount)` for a huge positive count.
+* readTypeInfo is the code AFTER the repair of KF-C04-1 (a custom class that names a bare collection /
+  tuple marshal class stays a custom type).
 Core Lean only (compiled into the native driver).
 -/
 namespace FrameRead
@@ -243,8 +245,13 @@ def readTypeInfoF : Nat → P TypeInfo
     let simple ← (if id == typeCustom then do
         let custom ← readString
         let cassType := getApacheCassandraType custom
-        pure (if cassType != typeCustom then { typ := cassType, custom := custom : Native }
-              else { typ := id, custom := custom })
+        -- `switch cassType { case TypeCustom, TypeList, TypeSet, TypeMap, TypeTuple: (stays custom)
+        --  default: simple.typ = cassType }`: a custom option carries only the class name, so a bare
+        -- collection / tuple marshal class has no element types to read
+        pure (if cassType == typeCustom || cassType == typeList || cassType == typeSet ||
+                 cassType == typeMap || cassType == typeTuple
+              then { typ := id, custom := custom : Native }
+              else { typ := cassType, custom := custom })
       else pure { typ := id, custom := [] })
     if simple.typ == typeTuple then do
       let n ← readShort
